@@ -82,6 +82,10 @@ def callers(name):
         out.append("def tfun(a: Qint[2], b: Qint[2]) -> Qint[2]:\n    c = a\n    if a > b:\n        c = {g}(b)\n    return c\n")
         out.append("def tfun(a: Qint[2], b: Qint[2]) -> Qint[2]:\n    c = a\n    for i in range(2):\n        c = {g}(c)\n    return c\n")
         out.append("def tfun(t: Qlist[Qint[2], 2]) -> Qint[2]:\n    c = 0\n    for x in t:\n        c = c + {g}(x)\n    return c\n")
+        # the argument is overwritten by the result of the call (every bit of the result must be computed from the OLD value)
+        out.append("def tfun(a: Qint[2], b: Qint[2]) -> Qint[2]:\n    a = {g}(a)\n    return a\n")
+        out.append("def tfun(a: Qint[2], b: Qint[2]) -> Qint[2]:\n    c = a ^ b\n    c = {g}(c)\n    return c + a\n")
+        out.append("def tfun(a: Qint[2], b: Qint[2]) -> Qint[2]:\n    for i in range(3):\n        a = {g}(a)\n    return a\n")
     elif argt == ["Qint[2]", "Qint[2]"] and rt != "Tuple":
         sig = "a: Qint[2], b: Qint[2]"
         for e, r in [("{g}(a, b)", rt), ("{g}(b, a)", rt), ("{g}(a, a)", rt), ("{g}(a, 1)", rt), ("{g}(3, b)", rt), ("{g}(a + 1, b)", rt),
@@ -92,6 +96,9 @@ def callers(name):
             out.append("def tfun(%s) -> Qint[2]:\n    return {g}(a, b) + {g}(b, a)\n" % sig)
         else:
             out.append("def tfun(%s) -> bool:\n    return {g}(a, b) and not {g}(b, a)\n" % sig)
+        if rt == "Qint[2]":
+            out.append("def tfun(%s) -> Qint[2]:\n    a = {g}(a, b)\n    return a\n" % sig)
+            out.append("def tfun(%s) -> Qint[2]:\n    b = {g}(a, b)\n    a = {g}(b, a)\n    return a ^ b\n" % sig)
         out.append("def tfun(t: Tuple[Qint[2], Qint[2]]) -> %s:\n    return {g}(t[1], t[0])\n" % rt)
         out.append("def tfun(t: Qlist[Qint[2], 2], c: Qint[2]) -> %s:\n    return {g}(t[1], c)\n" % rt)
         out.append("def tfun(x: Qint[2], y: Qint[2]) -> %s:\n    return {g}(y, x)\n" % rt)
